@@ -64,6 +64,8 @@ mut("c11_sendmsg_leaks_lock", "C11", "internal/server/stream.go", "\tss.protecte
 mut("c17_write_failure_without_connection", "C17", "proxy.go", "\t\t\t\tc.toServer <- command{id: c.id, client: c, err: err}\n\t\t\t\treturn errors.Wrap(err, \"failed to write to connection\")", "\t\t\t\tc.toServer <- command{id: c.id, err: err}\n\t\t\t\treturn errors.Wrap(err, \"failed to write to connection\")")
 mut("c02_client_drops_when_full", "C02", "internal/client/multiplexer.go", "\tch <- rpc\n}", "\tselect {\n\tcase ch <- rpc:\n\tdefault:\n\t}\n}")
 mut("c06_sendmsg_asks_for_reset", "C06", "internal/client/stream.go", "\tif err != nil {\n\t\tcs.teardown(false)\n\t\treturn err\n\t}\n\trpc := goatorepo.Rpc{", "\tif err != nil {\n\t\tcs.teardown(true)\n\t\treturn err\n\t}\n\trpc := goatorepo.Rpc{")
+mut("c06_reset_written_by_read_loop", "C06,C03", "server.go", "\tselect {\n\tcase h.writeChan <- reset:\n\t\treturn nil\n\tcase <-h.ctx.Done():\n\t\treturn context.Cause(h.ctx)\n\t}\n}", "\treturn h.rw.Write(h.ctx, reset)\n}")
+mut("c11_reset_sent_under_the_registry_lock", "C11", "server.go", "\t\tlog.Info().Msgf(\"did not expect body: calling RST stream %d\", rpc.Id)\n\t\tsendReset = true\n\t\treturn nil", "\t\tlog.Info().Msgf(\"did not expect body: calling RST stream %d\", rpc.Id)\n\t\treturn h.resetStream(rpc)")
 mut("c10_serve_no_drain", "C10", "server.go", "\th.cancelAndWaitForStreams()\n", "")
 
 only = sys.argv[1] if len(sys.argv) > 1 else ""
